@@ -250,3 +250,64 @@ where
         list.exists(id, None, Op::Any)
     }
 }
+
+/// Verification hooks (feature `verif-hooks`, off by default).
+#[cfg(feature = "verif-hooks")]
+impl<CS, R> WriteState<CS, R>
+where
+    CS: CipherSuite,
+    R: Csprng,
+{
+    /// Reports the contents of both channel lists.
+    ///
+    /// Each list is locked in turn (the current write side
+    /// first). `f` is invoked with the side (0 = write side,
+    /// 1 = read side), that side's generation, and the index, ID,
+    /// direction, label, and a fingerprint of the in-use key of
+    /// each channel. Returns the generations of (write side,
+    /// read side).
+    ///
+    /// Only meaningful while no writer operation is in progress,
+    /// which `WriteState: !Sync` guarantees for the caller.
+    pub fn verif_sides(
+        &self,
+        mut f: impl FnMut(usize, u32, usize, LocalChannelId, crate::ChannelDirection, LabelId, u64),
+    ) -> Result<(u32, u32), Error> {
+        fn fnv(h: u64, data: &[u8]) -> u64 {
+            data.iter().fold(h, |h, b| {
+                (h ^ u64::from(*b)).wrapping_mul(0x0000_0100_0000_01b3)
+            })
+        }
+        let shm = self.inner.shm();
+        let write_off = self.inner.write_off(shm)?;
+        let mut gens = [0u32; 2];
+        for (side, gen_out) in gens.iter_mut().enumerate() {
+            let mutex = if side == 0 {
+                shm.side(write_off)?
+            } else {
+                self.inner.load_read_list()?
+            };
+            let list = mutex.lock().assume("poisoned")?;
+            let generation = list.generation.load(Ordering::Relaxed);
+            *gen_out = generation;
+            for (idx, chan) in list.try_iter()?.enumerate() {
+                let (direction, fp) = if chan.matches(Op::Seal)? {
+                    let fp = fnv(
+                        fnv(0xcbf2_9ce4_8422_2325, chan.seal_key.key.as_bytes()),
+                        &chan.seal_key.base_nonce,
+                    );
+                    (crate::ChannelDirection::Seal, fp)
+                } else {
+                    let fp = fnv(
+                        fnv(0xcbf2_9ce4_8422_2325, chan.open_key.key.as_bytes()),
+                        &chan.open_key.base_nonce,
+                    );
+                    (crate::ChannelDirection::Open, fp)
+                };
+                f(side, generation, idx, chan.id()?, direction, chan.label_id()?, fp);
+            }
+        }
+        let [w, r] = gens;
+        Ok((w, r))
+    }
+}
